@@ -211,11 +211,9 @@ func vC29_inject() {
 	md, err := r.injectMessageMetadata(&VC29Ctx{Caller: 0})
 	vAssert(err == nil, "injection succeeds")
 	want := VC29_want(p, 0)
+	vAssert((len(want) == 0 && md == nil) || (len(want) > 0 && VC29_sameMap(md, want)), "the per-message metadata is exactly the injected header map (nil when nothing was injected)")
 	if len(want) == 0 {
-		vAssert(md == nil, "no headers means no per-message metadata")
 		vCover("none")
-	} else {
-		vAssert(VC29_sameMap(md, want), "the per-message metadata is exactly the injected header map")
 	}
 	md2, err := (&client{}).injectMessageMetadata(&VC29Ctx{Caller: 0})
 	vAssert(md2 == nil && err == nil, "no propagator means no per-message metadata")
